@@ -72,6 +72,15 @@ def B12(x0, x1, x2, x3, x4, x5, x6, x7, x8, x9, x10, x11="e"):
     return o, o2
 
 
+@as_function_node("p", "q", validate_output_labels=False)
+def BK(freq4, k_59, unit="u"):
+    """input labels of a past failure: under a 32-bit label checksum `freq4[9]` and `k_59[10]` shared a node"""
+    _log("BK", freq4, k_59, unit)
+    p = ("p", freq4, k_59, unit)
+    q = ("q", freq4, k_59, unit)
+    return p, q
+
+
 @as_function_node("t", validate_output_labels=False)
 def _Pack(a, b, c):
     _boom(a, b, c)
